@@ -89,9 +89,9 @@ def values(enc='utf-8'):
     return v
 
 
-def val(name):
+def val(name, q=False, how='var'):
     py, kind, s = values()[name]
-    return {'t': 'val', 'kind': kind, 's': cps(s), 'name': name}
+    return {'t': 'val', 'kind': kind, 's': cps(s), 'name': name, 'q': q, 'how': how}
 
 
 def cases_for(tier, rng):
@@ -126,6 +126,10 @@ def cases_for(tier, rng):
         out.append([val(n), piece('latin', 'bytes')])
         out.append([grp('in', [val(n)])])
         out.append([grp('try', [val(n), lit('.')])])
+        for how in ('var', 'fmt', 'hqsize'):
+            out.append([val(n, True, how)])
+            out.append([lit('<'), val(n, True, how), lit('>')])
+            out.append([grp('handler', [val(n, True, how)]), piece('latin', 'bytes')])
     return [{'prog': p} for p in out]
 
 
@@ -164,7 +168,9 @@ def pr(prog, ns, enc, counter):
             k = 'o%d' % counter[0]
             counter[0] += 1
             ns[k] = values(enc)[n['name']][0]
-            out.append('<dtml-var expr="%s">' % k)
+            out.append({'var': '<dtml-var expr="%s"%s>' % (k, ' html_quote' if n.get('q') else ''),
+                        'fmt': '<dtml-var expr="%s" fmt=html-quote>' % k,
+                        'hqsize': '<dtml-var expr="%s" size=99 html_quote>' % k}[n.get('how', 'var')])
         else:
             inner = pr(n['c'], ns, enc, counter)
             g = n['g']
